@@ -365,6 +365,10 @@ def task_concrete():
     col.concrete('cli_dry_and_real_runs_vs_api', r['reproduced'] is False, r,
                  bounded='one small survey/model; forward / misfit / gradient through emg3d.cli.main.main vs the API; [data] selection incl. remove_empty alone; gridding_opts with cell_number; --path override; unknown keys',
                  cases=r.get('cases', 0))
+    col.function('cli/main.main')
+    r = ob.guarded(c18_concrete.check_terminal)
+    col.concrete('every_terminal_option_reaches_the_run_with_its_name_and_value', r['reproduced'] is False, r,
+                 bounded='each documented terminal option alone (short and long form), one combination, three mutually exclusive pairs', cases=r.get('cases', 0))
     return col.pack()
 
 
